@@ -191,6 +191,10 @@ func c01(w *core.World, r *core.Report) {
 	// ---- OLD-PRIO-DELETE (shared with C02): a version left under the old priority stays live for the merge
 	ruleOldPrioDelete(w, r, low)
 
+	// ---- CASE-ALTERNATIVES-LOADED (shared with C08)
+	r.Rule("CASE-ALTERNATIVES-LOADED", 1, "value flow: some read of stored intent content takes its paths from the member names of a choice; otherwise the values of a case that becomes the winning one through another intent's removal or re-prioritisation are not in the tree and the device does not get the highest-precedence live value for those paths.")
+	ruleCaseAlternativesLoaded(w, r, "CASE-ALTERNATIVES-LOADED")
+
 	// ---- APPLY-SENDS (shared with C03)
 	r.Rule("APPLY-SENDS", 2, "Datastore.applyIntent returns success only after target.Target.Set was called with the tree it was given: the computed deletes and updates reach the device whenever the stores are rewritten.")
 	ruleApplySends(w, r, "APPLY-SENDS")
